@@ -109,7 +109,10 @@ type Field struct {
 	Key    string
 	GoName string
 	Tags   [][2]string
-	S      *Node
+	// Alt: this field's destination has the schema's SECOND Go type (GoTypeAlt) — used when one schema
+	// object sits at several positions, so that each position may have its own destination type
+	Alt bool
+	S   *Node
 }
 
 func (f Field) TagString() string {
